@@ -14,6 +14,7 @@ from __future__ import annotations
 
 import hashlib
 import importlib
+import importlib.util
 import json
 import multiprocessing as mp
 import os
@@ -54,7 +55,7 @@ class Sub:
 
     def __init__(self, name, run, strategy=None, enum=None, n_quick=1000, n_thorough=20000,
                  required=(), shrink_quick=True, shrink_thorough=True, exhaustive=False,
-                 reset=True, shards=None, desc="", case_timeout=120):
+                 reset=True, shards=None, desc="", case_timeout=120, fuzz_quick=0, fuzz_thorough=0):
         self.name = name
         self.run = run  # run(case) -> dict(nt=bool, cls=[...]) ; raises Violation
         self.strategy = strategy  # hypothesis strategy of cases (JSON-serialisable)
@@ -66,6 +67,8 @@ class Sub:
         self.reset = reset  # restore FRAME's process-wide state before each case
         self.shards = shards
         self.desc = desc
+        # executions per coverage-guided (atheris / libFuzzer) campaign over the same strategy and oracle; one campaign per core
+        self.fuzz = {"quick": fuzz_quick, "thorough": fuzz_thorough}
         self.case_timeout = int(os.environ.get("VERIF_CASE_TIMEOUT", case_timeout))  # seconds; a case of a ms-scale operation that does not return is a failure
 
 
@@ -73,8 +76,19 @@ class Sub:
 # helpers
 
 
+def _strkeys(o):
+    if isinstance(o, dict):
+        return {(k if isinstance(k, str) else "%s:%r" % (type(k).__name__, k)): _strkeys(v) for k, v in o.items()}
+    if isinstance(o, (list, tuple)):
+        return [_strkeys(v) for v in o]
+    return o
+
+
 def canon(case) -> str:
-    return json.dumps(case, sort_keys=True, separators=(",", ":"))
+    try:
+        return json.dumps(case, sort_keys=True, separators=(",", ":"))
+    except TypeError:  # a generated (ill-formed) document with keys of several types: not sortable as they are
+        return json.dumps(_strkeys(case), sort_keys=True, separators=(",", ":"))
 
 
 def h64(s: str) -> int:
@@ -162,9 +176,42 @@ def _limit_memory():
         pass
 
 
+def _fuzz_campaign(prop_mod, sub_name, shard, n, seed_val, deadline, open_sigs):
+    """One libFuzzer campaign in a child process (vfw/fuzz.py); returns the same record as a Hypothesis shard."""
+    import subprocess
+    out = dict(sub=sub_name + FUZZ_TAG, shard=shard, failure=None, error=None)
+    d = tempfile.mkdtemp(prefix="fuzz-%s-%d-" % (sub_name, shard))
+    try:
+        env = dict(os.environ, PYTHONHASHSEED="0")
+        r = subprocess.run([sys.executable, "-m", "vfw.fuzz", prop_mod, sub_name, str(n), str(seed_val), d, repr(deadline),
+                            json.dumps(sorted(open_sigs))], cwd=VERIF, env=env, capture_output=True, text=True)
+        summ = os.path.join(d, "summary.json")
+        if r.returncode not in (0, 77) or not os.path.exists(summ):
+            out["error"] = "atheris campaign ended with status %s\n%s" % (r.returncode, (r.stderr or "")[-3000:])
+            return out
+        with open(summ) as f:
+            e = json.load(f)
+        out.update(evaluations=e["evaluations"], nontrivial=set(e["nontrivial"]), classes=Counter(e["classes"]),
+                   samples=e["samples"], known=Counter(e["known"]), skipped=e["skipped"])
+        if r.returncode == 77:
+            with open(os.path.join(d, "failure.json")) as f:
+                case, msg, sig = json.load(f)
+            out["failure"] = (case, msg + "  [found by the coverage-guided campaign; not shrunk]", sig)
+    except BaseException:
+        out["error"] = traceback.format_exc()
+    finally:
+        shutil.rmtree(d, ignore_errors=True)
+    return out
+
+
+FUZZ_TAG = "@atheris"
+
+
 def _task(args):
-    _limit_memory()
     prop_mod, sub_name, shard, nshards, n, seed_val, deadline, tier, open_sigs = args
+    if sub_name.endswith(FUZZ_TAG):
+        return _fuzz_campaign(prop_mod, sub_name[:-len(FUZZ_TAG)], shard, n, seed_val, deadline, open_sigs)
+    _limit_memory()
     out = dict(sub=sub_name, shard=shard, failure=None, error=None)
     try:
         mod = importlib.import_module(prop_mod)
@@ -329,13 +376,17 @@ def replay_isolated(prop_mod, path):
 
 
 def write_found(prop, sub, case, msg, sig):
-    d = os.path.join(VERIF, "found", prop)
+    d = os.path.join(os.environ.get("VERIF_FOUND_DIR") or os.path.join(VERIF, "found"), prop)  # (sensitivity runs write elsewhere)
     os.makedirs(d, exist_ok=True)
     c = canon(case)
     path = os.path.join(d, "found-%s-%016x.json" % (sub, h64(sub + c)))
+    doc = dict(property=prop, sub=sub, message=msg, signature=sig, case=case)
+    try:
+        text = json.dumps(doc, indent=1, sort_keys=True)
+    except TypeError:  # keys of several types somewhere in the case: keep the insertion order
+        text = json.dumps(doc, indent=1)
     with open(path, "w") as f:
-        json.dump(dict(property=prop, sub=sub, message=msg, signature=sig, case=case), f, indent=1,
-                  sort_keys=True)
+        f.write(text)
     return path
 
 
@@ -388,6 +439,19 @@ def run_property(prop_mod_name: str, tier: str, seed: int) -> int:
             for sh in range(nshards):
                 tasks.append((prop_mod_name, s.name, sh, nshards, per,
                               derive_seed(seed, prop, s.name, sh), deadline, tier, open_sigs))
+        fuzzed = []
+        for s in subs:
+            nf = s.fuzz[tier] if not os.environ.get("VERIF_NO_FUZZ") else 0
+            if s.fuzz["thorough"] and os.environ.get("VERIF_FUZZ_RUNS"):  # (trial runs of the fuzz layer)
+                nf = int(os.environ["VERIF_FUZZ_RUNS"])
+            if nf and importlib.util.find_spec("atheris") is None:
+                sys.stderr.write("note: atheris is not installed, the coverage-guided campaigns of %s/%s are skipped\n" % (prop, s.name))
+                nf = 0
+            if nf and s.strategy is not None:
+                fuzzed.append(s)
+                for sh in range(NPROC):
+                    tasks.append((prop_mod_name, s.name + FUZZ_TAG, sh, NPROC, nf,
+                                  derive_seed(seed, prop, s.name, "atheris", sh), deadline, tier, open_sigs))
         # interleave subs so that expensive ones start early
         tasks.sort(key=lambda t: (t[2], t[1]))
         ctx = mp.get_context("fork")
@@ -406,8 +470,8 @@ def run_property(prop_mod_name: str, tier: str, seed: int) -> int:
         total_eval, all_nt, all_classes, samples = 0, set(), Counter(), []
         known_counter = Counter()
         skipped = 0
-        for s in subs:
-            rs = [r for r in results if r["sub"] == s.name]
+        for s, tag in [(s, "") for s in subs] + [(s, FUZZ_TAG) for s in fuzzed]:
+            rs = [r for r in results if r["sub"] == s.name + tag]
             ev = sum(r["evaluations"] for r in rs)
             nt = set()
             cl = Counter()
@@ -418,17 +482,19 @@ def run_property(prop_mod_name: str, tier: str, seed: int) -> int:
                 skipped += r["skipped"]
             smp = [x for r in rs for x in r["samples"]][:3]
             fails = [r["failure"] for r in rs if r["failure"]]
-            per_sub[s.name] = dict(evaluations=ev, distinct_nontrivial=len(nt), classes=dict(sorted(cl.items())),
-                                   failures=len(fails), exhaustive=bool(s.exhaustive), desc=s.desc)
+            per_sub[s.name + tag] = dict(evaluations=ev, distinct_nontrivial=len(nt), classes=dict(sorted(cl.items())),
+                                         failures=len(fails), exhaustive=bool(s.exhaustive) and not tag,
+                                         desc=s.desc if not tag else "the same strategy and oracle driven by atheris/libFuzzer "
+                                         "(branch coverage of frame/ and tools/ as feedback), %d independent campaigns" % len(rs))
             total_eval += ev
             all_nt |= nt
-            all_classes.update({"%s:%s" % (s.name, k): v for k, v in cl.items()})
+            all_classes.update({"%s%s:%s" % (s.name, tag, k): v for k, v in cl.items()})
             samples.extend({"sub": s.name, "case": x} for x in smp)
             if fails:
                 case, msg, sig = min(fails, key=lambda f: len(canon(f[0])))
                 path = write_found(prop, s.name, case, msg, sig)
                 violations.append((path, msg))
-            missing = [c for c in s.required if cl.get(c, 0) == 0]
+            missing = [c for c in s.required if cl.get(c, 0) == 0] if not tag else []
             if missing and not fails and ev > 0 and skipped == 0:
                 sys.stderr.write("HARNESS ERROR: %s/%s never produced required classes %s\n" % (
                     prop, s.name, missing))
@@ -456,7 +522,8 @@ def run_property(prop_mod_name: str, tier: str, seed: int) -> int:
                 regression_replays=replayed,
                 known_finding_hits=dict(known_counter),
                 budget_s=budget, cases_skipped_after_budget=skipped,
-                engine="hypothesis %s, %d worker processes" % (_hyp_version(), NPROC),
+                engine="hypothesis %s, %d worker processes%s" % (_hyp_version(), NPROC, (
+                    "; atheris %s campaigns on %s" % (_atheris_version(), ", ".join(s.name for s in fuzzed))) if fuzzed else ""),
             ),
             assumptions=list(mod.ASSUMPTIONS),
             wall_s=round(wall, 2),
@@ -465,8 +532,11 @@ def run_property(prop_mod_name: str, tier: str, seed: int) -> int:
         evdir = os.environ.get("VERIF_EVIDENCE_DIR") or os.path.join(VERIF, "evidence")  # (sensitivity runs write elsewhere)
         os.makedirs(evdir, exist_ok=True)
         with open(os.path.join(evdir, "%s.json" % prop), "w") as f:
-            json.dump(evidence, f, indent=1, sort_keys=True)
-            f.write("\n")
+            try:
+                text = json.dumps(evidence, indent=1, sort_keys=True)
+            except TypeError:
+                text = json.dumps(_strkeys(evidence), indent=1, sort_keys=True)
+            f.write(text + "\n")
 
         if violations:
             for path, msg in violations:
@@ -478,6 +548,14 @@ def run_property(prop_mod_name: str, tier: str, seed: int) -> int:
         return 0
     finally:
         shutil.rmtree(scratch, ignore_errors=True)
+
+
+def _atheris_version():
+    try:
+        from importlib.metadata import version
+        return version("atheris")
+    except Exception:
+        return "?"
 
 
 def _hyp_version():
